@@ -9,7 +9,8 @@
 (***************************************************************************)
 EXTENDS Integers, FiniteSets, TLC
 
-StartupClasses == {"pool_md5", "pool_md5_authquery", "pool_trust", "unknown_db", "unknown_user", "admin_ok_user",
+\* pool_md5_authquery2: a second user of the same auth_query pool (its secret is "the other user's" for the first)
+StartupClasses == {"pool_md5", "pool_md5_authquery", "pool_md5_authquery2", "pool_trust", "unknown_db", "unknown_user", "admin_ok_user",
                    "admin_wrong_user", "no_user"}
 \* zero_length_body / constant_md5 / correct_prefix / correct_without_nul: well-framed PasswordMessages whose payload
 \* is shorter than a full answer (nothing, the literal "md5", a prefix of the right answer, the right answer without NUL)
@@ -24,18 +25,19 @@ CONSTANT Dev
 \*      "admin_via_pool" - the admin database accepts a pool user's credentials
 \*      "ok_before_check" - AuthenticationOk is sent before the response is verified
 \*      "stale_secret"   - a password changed by RELOAD is still checked against its old value
+\*      "secret_shared_in_pool" - the users of one auth_query pool section are checked against one shared secret
 
 VARIABLES phase, startup, authok, admitted, leaked, resp
 vars == <<phase, startup, authok, admitted, leaked, resp>>
 Init == phase = "start" /\ startup = "none" /\ authok = FALSE /\ admitted = FALSE /\ leaked = FALSE /\ resp = "none"
 
-NeedsPassword(s) == s \in {"pool_md5", "pool_md5_authquery", "admin_ok_user", "admin_wrong_user"}
-Configured(s) == s \in {"pool_md5", "pool_md5_authquery", "pool_trust", "admin_ok_user", "admin_wrong_user"}
+NeedsPassword(s) == s \in {"pool_md5", "pool_md5_authquery", "pool_md5_authquery2", "admin_ok_user", "admin_wrong_user"}
+Configured(s) == s \in {"pool_md5", "pool_md5_authquery", "pool_md5_authquery2", "pool_trust", "admin_ok_user", "admin_wrong_user"}
 
 \* C09: who may be admitted
 MayAdmit(s, r) ==
   \/ s = "pool_trust"
-  \/ s \in {"pool_md5", "pool_md5_authquery", "admin_ok_user"} /\ r = "correct"
+  \/ s \in {"pool_md5", "pool_md5_authquery", "pool_md5_authquery2", "admin_ok_user"} /\ r = "correct"
 
 Startup(s) ==
   /\ phase = "start" /\ startup' = s
@@ -51,6 +53,7 @@ Accepts(s, r) ==
   \/ "salt_ignored" \in Dev /\ r = "replayed" /\ s # "admin_wrong_user"
   \/ "admin_via_pool" \in Dev /\ s = "admin_wrong_user" /\ r = "correct"
   \/ "stale_secret" \in Dev /\ s = "pool_md5" /\ r = "previous_password"
+  \/ "secret_shared_in_pool" \in Dev /\ s \in {"pool_md5_authquery", "pool_md5_authquery2"} /\ r = "other_users_password"
 
 Respond(r) ==
   /\ phase = "await_pw"
@@ -69,6 +72,6 @@ Spec == Init /\ [][Next]_vars
 
 \* the last response given is remembered through phase; the invariants quantify over reachable states
 NoOkWithoutCredentials == authok => (startup = "pool_trust" \/ phase = "authed")
-OnlyValidAdmitted == admitted => startup \in {"pool_trust", "pool_md5", "pool_md5_authquery", "admin_ok_user"}
+OnlyValidAdmitted == admitted => startup \in {"pool_trust", "pool_md5", "pool_md5_authquery", "pool_md5_authquery2", "admin_ok_user"}
 AdmittedOnlyByRule == admitted => MayAdmit(startup, resp)
 =============================================================================
